@@ -52,6 +52,7 @@ type job struct {
 	NoRef     bool   `json:"no_ref"`
 	MapOrder  bool   `json:"map_order"`
 	Native    bool   `json:"native"`
+	MaxMoves  int    `json:"max_moves"`
 }
 
 type diff struct {
@@ -95,6 +96,10 @@ type runOut struct {
 func exec(f func(), tape []bool, j *job, k int) (o runOut) {
 	tr.Reset(tape, j.MaxTape, j.Budget)
 	drv.K = k
+	drv.MaxMoves = 12
+	if j.MaxMoves > 0 {
+		drv.MaxMoves = j.MaxMoves
+	}
 	func() {
 		defer func() {
 			if p := recover(); p != nil {
@@ -227,7 +232,8 @@ func runJob(j *job) *summary {
 	tape := []bool{}
 	for {
 		hist := []int{-1}
-		if s.Paths < j.HistPaths {
+		drv.NoExtraCur = j.MapOrder
+		if s.Paths < j.HistPaths && !j.MapOrder {
 			hist = append(hist, j.Hist...)
 		}
 		var consumed int
